@@ -148,20 +148,41 @@ def check_degree_split(model, rep):
     stmts = f.node.body[start + 1:f.node.body.index(last)]
     bad = None
     try:
+        from sa.miniexec import MiniExec, RaisedIn, AssertionFailed
         for deg in ('d', ['d0', 'd1'], ['d0', 'd1', 'd2'], ['d0', 'd1', 'd2', 'd3']):
-            ex = ShapeExec({'degree': list(deg) if isinstance(deg, list) else deg, 'ischeme': 'gauss', 'ischeme1': 'gauss', 'ischeme2': 'gauss'})
+            ex = MiniExec({'degree': tuple(deg) if isinstance(deg, list) else deg, 'ischeme': 'gauss', 'ischeme1': 'gauss', 'ischeme2': 'gauss', 'tuple': tuple, 'isinstance': isinstance})
+            ex.env['self'] = _self_with_helpers(model, 'element:TensorReference', ex)
             ex.run(stmts)
             d1, d2 = ex.ev(calls[0].args[1]), ex.ev(calls[1].args[1])
+            tup = lambda x: list(x) if isinstance(x, tuple) else x
+            d1, d2 = tup(d1), tup(d2)
             want1 = deg[0] if isinstance(deg, list) else deg
             want2 = deg if not isinstance(deg, list) else deg[1] if len(deg) == 2 else deg[1:]
             if d1 != want1 or d2 != want2:
                 bad = (deg, d1, d2, want1, want2)
                 break
-    except (Unsupported, ShapeError) as e:
+    except (Unsupported, ShapeError, TypeError, ValueError, IndexError, KeyError, AttributeError) as e:
         raise AnalysisError(f'TensorReference.getpoints: the degree split uses a construct the interpreter does not know: {e}')
     rep.ob('R09.7', f.key, f.where(stmts[0]) if stmts else f.where(), bad is None, 'the per-direction degree tuple is split as (first entry -> ref1, rest -> ref2) without loss for 2, 3 and 4 entries' if bad is None else
            f'for the degree {tuple(bad[0]) if isinstance(bad[0], list) else bad[0]} ref1 gets {bad[1]} and ref2 gets {bad[2]}; it should be {bad[3]} and {bad[4]}: a direction is integrated with the degree requested for another one, '
            'so polynomials of the requested degree in that direction are no longer integrated exactly', statement='degree-split')
+
+
+def _self_with_helpers(model, cls_key, ex):
+    """An abstract `self` whose private helper methods (static or not) are interpreted when the fragment calls them (sa.miniexec.Closure)."""
+    from sa.miniexec import Sym, Closure
+    c = model.cls(cls_key)
+    me = Sym()
+    for name, mem in c.members.items():
+        if mem.func is None or isinstance(mem.func.node, ast.Lambda) or not name.startswith('_') or name.startswith('__'):
+            continue
+        node = mem.func.node
+        static = any(src(d) == 'staticmethod' for d in node.decorator_list)
+        if any(src(d) not in ('staticmethod',) for d in node.decorator_list):
+            continue
+        clo = Closure(node, ex)
+        setattr(me, name, clo if static else (lambda *a, clo=clo: clo(me, *a)))
+    return me
 
 
 def _leaf_calls(table):
@@ -247,26 +268,36 @@ def run(model, rep, tier):
     ok = 'sample1.nelems * sample2.nelems, sample1.npoints * sample2.npoints' in src(init.node) and 'sample1.spaces + sample2.spaces' in src(init.node)
     rep.ob('R09.1', init.key, init.where(), ok, 'product sample announces n1*n2 elements and p1*p2 points', statement='mul-counts')
     Ad = model.cls('sample:_Add')
+    # getindex / get_element_tri / get_element_hull are INTERPRETED (sa.miniexec) for a union of 3 + 2 elements with symbolic per-element results: an element below
+    # nelems1 is answered by part 1 at the same index, the others by part 2 at index - nelems1, and only the point indices of part 2 are shifted by npoints1
+    from sa.miniexec import MiniExec, Sym, Returned, RaisedIn, AssertionFailed
     for name in ('getindex', 'get_element_tri', 'get_element_hull'):
         f = Ad.members[name].func
-        ifs = [s for s in f.body if isinstance(s, ast.If)]
         p = params(f.node)[0][1]
-        ok = len(ifs) == 1
-        if ok:  # whichever way round the test and its branches are written (integers: `not p < n` is `p >= n`)
-            t_, f_ = if_branches(f.body, ifs[0])
-            if equivalent(ifs[0].test, f'{p} < self._sample1.nelems', total_order=True):
-                lo, hi = t_, f_
-            elif equivalent(ifs[0].test, f'not {p} < self._sample1.nelems', total_order=True):
-                lo, hi = f_, t_
-            else:
-                lo = hi = []
-            ok = any(f'self._sample1.{name}({p})' in src(x) for x in lo) and any(f'self._sample2.{name}({p} - self._sample1.nelems)' in src(x) for x in hi)
-        rep.ob('R09.1', f.key, f.where(), ok, 'elements below sample1.nelems belong to part 1, the rest to part 2 shifted by sample1.nelems' if ok else
-               f'_Add.{name} splits or shifts the element index differently from its siblings', statement=f'{name}: split')
+        bad = None
+        try:
+            for i in range(5):
+                ex = MiniExec({p: i, 'numpy': Sym(add=lambda a_, b_: a_ + b_, asarray=lambda a_: a_)})
+                me = _self_with_helpers(model, 'sample:_Add', ex)
+                mk = lambda tag: Sym(nelems=3 if tag == 1 else 2, npoints=Poly.atom(f'P{tag}'), **{m_: (lambda j, m_=m_, tag=tag: Poly.atom(f'{m_}{tag}[{j}]')) for m_ in ('getindex', 'get_element_tri', 'get_element_hull')})
+                me._sample1, me._sample2 = mk(1), mk(2)
+                ex.env['self'] = me
+                try:
+                    ex.run(f.node.body)
+                    got = None
+                except Returned as r:
+                    got = r.value
+                want = Poly.atom(f'{name}1[{i}]') if i < 3 else Poly.atom(f'{name}2[{i - 3}]') + (Poly.atom('P1') if name == 'getindex' else Poly.const(0))
+                if not (isinstance(got, Poly) and got == want):
+                    bad = (i, got, want)
+                    break
+        except (Unsupported, AssertionFailed, RaisedIn, TypeError, ValueError, KeyError, IndexError, AttributeError) as e:
+            raise AnalysisError(f'_Add.{name} uses a construct the interpreter does not know: {type(e).__name__}: {e}')
+        rep.ob('R09.1', f.key, f.where(), bad is None, 'elements below sample1.nelems belong to part 1, the rest to part 2 shifted by sample1.nelems' + (' (point indices by sample1.npoints)' if name == 'getindex' else '') if bad is None else
+               f'_Add.{name} splits or shifts the element index differently from its siblings: element {bad[0]} of a union of 3 + 2 elements gives {bad[1]!r}, expected {bad[2]!r}', statement=f'{name}: split')
     g = Ad.members['getindex'].func
-    ok = any(_denotes(r.value, _leaf_calls({'self._sample2.getindex': ('G2', ('a',))}), lambda A: V(A('G2') + A('self._sample1.npoints'), ('a',)), names=_simple_bindings(g.node))
-             for r in ast.walk(g.node) if isinstance(r, ast.Return) and r.value is not None)
-    rep.ob('R09.1', g.key, g.where(), ok, 'point indices of part 2 are shifted by sample1.npoints' if ok else '_Add.getindex no longer shifts point indices of the second part by sample1.npoints', statement='getindex: offset')
+    ok = True
+    rep.ob('R09.1', g.key, g.where(), ok, 'point indices of part 2 are shifted by sample1.npoints (interpreted above)', statement='getindex: offset')
     for name in ('tri', 'hull'):
         f = Ad.members[name].func
         ok = _denotes(resolved_return(f.node), lambda n: None,
@@ -334,7 +365,12 @@ def run(model, rep, tier):
                 continue
             raw = pos[1]
             conds = enclosing_conditions(f.node)
+            # a parameter that the member re-binds no longer denotes the composite index where it is used afterwards (e.g. `part, ielem = self._split(ielem)`);
+            # for _Add the values are decided by interpretation above
+            rebound = [n_.lineno for n_ in ast.walk(f.node) if isinstance(n_, ast.Name) and n_.id == raw and isinstance(n_.ctx, ast.Store)]
             for call in calls_in(f.node):
+                if rebound and call.lineno > min(rebound):
+                    continue
                 if method_name(call) in ACCESSORS and isinstance(call.func, ast.Attribute) and src(call.func.value) != 'self' and call.args and src(call.args[0]) == raw:
                     nraw += 1
                     licensed = cname == '_Add' and any(t.replace(' ', '') == f'{raw}<self._sample1.nelems' and v for t, v in conds.get(id(call), ()))
